@@ -10,6 +10,10 @@ import SpsdkVerif.Model.HexFmt
 import SpsdkVerif.Proofs.HexFmt
 import SpsdkVerif.Generated.BinImageGeo
 import SpsdkVerif.Proofs.BinImageGen
+import SpsdkVerif.Model.HexFmtOw
+import SpsdkVerif.Proofs.HexFmtOw
+import SpsdkVerif.Model.BinImageOps
+import SpsdkVerif.Proofs.BinImageOps
 
 namespace SpsdkVerif.C16
 open SpsdkVerif SpsdkVerif.BinImg SpsdkVerif.Misc
@@ -504,5 +508,225 @@ theorem formats_generated :
 
 example : GenValid exTree := (validate_iff_generated exTree).mp (by decide)
 example : genLen 0 true 3 4 [(4, 2), (8, 3)] = .ok 12 := by decide
+
+end SpsdkVerif.C16
+
+/-!
+# HEX / S19 of ARBITRARY image trees: bincopy's overwrite path (Model/HexFmtOw.lean, lemmas Proofs/HexFmtOw.lean)
+
+`save_binary_image(.., 'HEX' | 'S19')` hands bincopy, node by node, the pattern block, then the own binary, then the
+sub-images, each with `add_binary(.., overwrite=True)`; these writes touch and overlap.  The theorems below are about
+the general `_Segments.add(segment, overwrite=True)` / `_Segment.add_data` as written (fast path, linear insert, prepend /
+overwrite / append, deletion and merging of following segments), for ALL write sequences, and connect it to the text
+round trips above: whatever the tree, what is read back from the written file is, at every address, the last write that
+covers it.  Tied to the real code by the `hexfmt_trees` stream.
+-/
+namespace SpsdkVerif.C16
+open SpsdkVerif.HexFmt SpsdkVerif.BinImg
+
+/-- one `add_binary(data, address, overwrite=True)`: for every normal segment list (ascending, strictly separated,
+    non-empty - what a `BinFile` holds), every position of bincopy's "current segment" and every non-empty data it
+    succeeds, the list stays normal, and every address holds the new data where that lies, the old content elsewhere -/
+theorem overwrite_add_spec (st : SegList) (seg : Seg) (hn : Norm st.list) (hcur : st.list = [] ∨ st.cur < st.list.length)
+    (hd : seg.data ≠ []) :
+    ∃ st', st.addOw seg = .ok st' ∧ Norm st'.list ∧ st'.cur < st'.list.length ∧
+      ∀ a, memAt st'.list a = owAt seg (memAt st.list a) a :=
+  addOw_spec st seg hn hcur hd
+
+/-- any sequence of overwriting writes into a fresh `BinFile`: never an `AddDataError`, and the memory is "last write wins" -/
+theorem overwrite_writes_spec (ws : List Seg) (hw : ∀ w ∈ ws, w.data ≠ []) :
+    ∃ st, addAllOw ⟨[], 0⟩ ws = .ok st ∧ Norm st.list ∧ ∀ a, memAt st.list a = memW ws a := by
+  obtain ⟨st, h1, h2, _, h4⟩ := addAllOw_spec ws hw ⟨[], 0⟩ norm_nil (Or.inl rfl)
+  exact ⟨st, h1, h2, h4⟩
+
+/-- … and when all writes lie in the 32-bit address space the result is a writer input of the round-trip theorems
+    above, already merged -/
+theorem overwrite_writes_segsOK (ws : List Seg) (hw : ∀ w ∈ ws, w.data ≠ []) (hb : ∀ w ∈ ws, w.addr + w.data.length ≤ 2 ^ 32) :
+    ∃ st, addAllOw ⟨[], 0⟩ ws = .ok st ∧ SegsOK st.list ∧ normalize st.list = st.list ∧ (ws ≠ [] → st.list ≠ []) ∧
+      ∀ a, memAt st.list a = memW ws a := by
+  obtain ⟨st, h1, h2, h4⟩ := overwrite_writes_spec ws hw
+  have hbnd := segs_bound ws st.list (2 ^ 32) h2.2 hb h4
+  refine ⟨st, h1, ⟨fun s hs => ⟨h2.2 s hs, hbnd s hs⟩, ?_⟩, normalize_of_noAdj _ (norm_noAdj _ h2), ?_, h4⟩
+  · exact h2.1.imp (fun h => Nat.le_of_lt h)
+  · intro hne hnil
+    rcases nil_or_snoc ws with rfl | ⟨pre, w, rfl⟩
+    · exact hne rfl
+    · have hwl : 0 < w.data.length := List.length_pos_iff.mpr (hw w (by simp))
+      have := h4 w.addr
+      rw [hnil] at this
+      simp only [memW, memWFrom, List.foldl_append, List.foldl_cons, List.foldl_nil] at this
+      rw [owAt_eq, if_pos (by omega), List.getElem?_eq_getElem (by omega)] at this
+      cases this
+
+/-- Intel-HEX for ANY write plan (touching, overlapping, in any order): the file is written, read back it gives exactly the
+    `BinFile`'s segments and start address (also through `load_binary_image`'s sniffing path), and at every address the
+    last write that covers it -/
+theorem writes_ihex_roundtrip (exec : Option Nat) (ws : List Seg) (hw : ∀ w ∈ ws, w.data ≠ [])
+    (hb : ∀ w ∈ ws, w.addr + w.data.length ≤ 2 ^ 32) (he : ∀ e, exec = some e → e < 2 ^ 32) :
+    ∃ st text, addAllOw ⟨[], 0⟩ ws = .ok st ∧ ihexEncode exec st.list = .ok text ∧
+      ihexDecode text = .ok ⟨st.list, exec⟩ ∧ (ws ≠ [] → loadText text = .ok ⟨st.list, exec⟩) ∧
+      ∀ a, memAt st.list a = memW ws a := by
+  obtain ⟨st, h1, h2, h3, h4, h5⟩ := overwrite_writes_segsOK ws hw hb
+  obtain ⟨text, t1, t2⟩ := ihex_roundtrip exec st.list h2 he
+  rw [h3] at t2
+  refine ⟨st, text, h1, t1, t2, ?_, h5⟩
+  intro hne
+  obtain ⟨text', u1, u2⟩ := ihex_load_roundtrip exec st.list h2 (h4 hne) he
+  rw [t1] at u1; cases u1
+  rw [h3] at u2; exact u2
+
+/-- S-record: the same, under bincopy's record-count limit -/
+theorem writes_srec_roundtrip (exec : Option Nat) (ws : List Seg) (hw : ∀ w ∈ ws, w.data ≠ [])
+    (hb : ∀ w ∈ ws, w.addr + w.data.length ≤ 2 ^ 32) (he : ∀ e, exec = some e → e < 2 ^ 32)
+    (hn : ∀ st, addAllOw ⟨[], 0⟩ ws = .ok st → (st.list.flatMap Seg.chunks).length ≤ 0xffffff) :
+    ∃ st text, addAllOw ⟨[], 0⟩ ws = .ok st ∧ srecEncode exec st.list = .ok text ∧
+      srecDecode text = .ok ⟨st.list, exec⟩ ∧ (ws ≠ [] → loadText text = .ok ⟨st.list, exec⟩) ∧
+      ∀ a, memAt st.list a = memW ws a := by
+  obtain ⟨st, h1, h2, h3, h4, h5⟩ := overwrite_writes_segsOK ws hw hb
+  have hn' : ((normalize st.list).flatMap Seg.chunks).length ≤ 0xffffff := by rw [h3]; exact hn st h1
+  obtain ⟨text, t1, t2⟩ := srec_roundtrip exec st.list h2 he hn'
+  rw [h3] at t2
+  refine ⟨st, text, h1, t1, t2, ?_, h5⟩
+  intro hne
+  obtain ⟨text', u1, u2⟩ := srec_load_roundtrip exec st.list h2 (h4 hne) he hn'
+  rw [t1] at u1; cases u1
+  rw [h3] at u2; exact u2
+
+/-- `save_binary_image(path, 'HEX')` of ANY image tree lying in the 32-bit address space (valid or not, nodes touching or
+    overlapping, any patterns / sizes / alignments / nesting): the file is written, and reading it back gives at every
+    address the last of the tree's writes (pattern block, own binary, sub-images in order) that covers it -/
+theorem save_ihex_roundtrip (exec : Option Nat) (i : Img) (hb : ∀ w ∈ i.savePlan 0, w.addr + w.data.length ≤ 2 ^ 32)
+    (he : ∀ e, exec = some e → e < 2 ^ 32) :
+    ∃ segs text, i.saveSegs = .ok segs ∧ i.saveIhex exec = .ok text ∧ ihexDecode text = .ok ⟨segs, exec⟩ ∧
+      ∀ a, memAt segs a = memW (i.savePlan 0) a := by
+  obtain ⟨st, text, h1, h2, h3, _, h5⟩ := writes_ihex_roundtrip exec (i.savePlan 0) (savePlan_nonempty i 0) hb he
+  refine ⟨st.list, text, ?_, ?_, h3, h5⟩
+  · simp only [Img.saveSegs, h1]
+  · simp only [Img.saveIhex, Img.saveSegs, h1, h2]
+
+theorem save_srec_roundtrip (exec : Option Nat) (i : Img) (hb : ∀ w ∈ i.savePlan 0, w.addr + w.data.length ≤ 2 ^ 32)
+    (he : ∀ e, exec = some e → e < 2 ^ 32)
+    (hn : ∀ segs, i.saveSegs = .ok segs → (segs.flatMap Seg.chunks).length ≤ 0xffffff) :
+    ∃ segs text, i.saveSegs = .ok segs ∧ i.saveSrec exec = .ok text ∧ srecDecode text = .ok ⟨segs, exec⟩ ∧
+      ∀ a, memAt segs a = memW (i.savePlan 0) a := by
+  obtain ⟨st, text, h1, h2, h3, _, h5⟩ := writes_srec_roundtrip exec (i.savePlan 0) (savePlan_nonempty i 0) hb he
+    (fun st hst => hn st.list (by simp only [Img.saveSegs, hst]))
+  refine ⟨st.list, text, ?_, ?_, h3, h5⟩
+  · simp only [Img.saveSegs, h1]
+  · simp only [Img.saveSrec, Img.saveSegs, h1, h2]
+
+/-! non-vacuity: a parent with pattern and binary, a child overwriting the middle, a second child touching the first -/
+def exOwTree : Img :=
+  .mk 12 0x1000 1 (some [1, 2, 3]) (some .ones)
+    [.mk 0 2 1 (some [9, 9]) none [], .mk 3 4 1 none (some .inc) []]
+
+example : exOwTree.savePlan 0 = [⟨0x1000, List.replicate 12 0xFF⟩, ⟨0x1000, [1, 2, 3]⟩, ⟨0x1002, [9, 9]⟩, ⟨0x1004, [0, 1, 2]⟩] := by decide
+example : exOwTree.saveSegs = .ok [⟨0x1000, [1, 2, 9, 9, 0, 1, 2, 0xFF, 0xFF, 0xFF, 0xFF, 0xFF]⟩] := by decide
+example : ∀ w ∈ exOwTree.savePlan 0, w.addr + w.data.length ≤ 2 ^ 32 := by decide
+example : Norm [⟨0, [1]⟩, ⟨5, [2, 3]⟩] := ⟨by simp [List.pairwise_cons, Seg.max], by decide⟩
+-- prepend + overwrite + append across two segments, one deleted, one merged
+example : addAllOw ⟨[], 0⟩ [⟨10, [1, 2]⟩, ⟨20, [3]⟩, ⟨30, [4, 5, 6]⟩, ⟨8, List.replicate 23 7⟩] =
+    .ok ⟨[⟨8, List.replicate 23 7 ++ [5, 6]⟩], 0⟩ := by decide
+example : exOwTree.export = .ok [1, 2, 9, 9, 0, 1, 2, 0xFF, 0xFF, 0xFF, 0xFF, 0xFF] := by decide
+
+end SpsdkVerif.C16
+
+/-!
+# The remaining tree operations (Model/BinImageOps.lean, lemmas Proofs/BinImageOps.lean)
+
+`join_images`, `get_image_by_absolute_address`, `update_offsets` / `min_offset`, `find_sub_image`, and what can be said
+about fill patterns that have no deterministic model (`rand`): lengths and validation never look at a pattern.
+Tied to the real objects by the `tree_ops` stream.
+-/
+namespace SpsdkVerif.C16
+open SpsdkVerif SpsdkVerif.BinImg SpsdkVerif.Misc
+
+/-- `join_images` preserves the export: a valid tree becomes one leaf with the same length whose export is, byte for byte,
+    the export of the tree, and which still validates -/
+theorem join_images_preserves_export (i : Img) (hv : i.validate = .ok ()) (ha : AlignWF i) :
+    ∃ b j, i.export = .ok b ∧ i.joinImages = .ok j ∧ j.children = [] ∧ j.len = i.len ∧ j.offset = i.offset ∧
+      j.export = .ok b ∧ j.validate = .ok () := by
+  obtain ⟨b, hb, hl⟩ := export_length i hv ha
+  have h0 : 0 < i.alignment := by cases ha with | mk _ h1 _ _ => exact h1
+  obtain ⟨j1, j2, j3, j4⟩ := joinImages_spec i b h0 hb hl
+  exact ⟨b, _, hb, j1, rfl, j2, rfl, j3, j4⟩
+
+/-- … and it fails exactly when `export()` fails (the object is then left as it was) -/
+theorem join_images_error (i : Img) (e : PyErr) : i.joinImages = .error e ↔ i.export = .error e :=
+  joinImages_error i e
+
+/-- `get_image_by_absolute_address` as it is written NOW: the image returned is a descendant reached through the returned
+    path, at the returned offset, and the address lies in its range with the END ADDRESS INCLUDED.
+    Full strength (`addr < i.offset + o + d.len`) is false on the pinned tree - open finding C16-address-one-past-end,
+    proposed_fixes/C16-3.diff - see `get_by_address_contains_partial` and `get_by_address_strict_iff`. -/
+theorem get_by_address_sound (i : Img) (addr : Nat) (path : List Nat) (o : Nat) (d : Img)
+    (h : i.getByAddr addr = .ok (path, o, d)) :
+    SubAt i o d ∧ atPath path i = some d ∧ pathOffset path i = o ∧ i.offset + o ≤ addr ∧ addr ≤ i.offset + o + d.len :=
+  getByAddr_sound i addr path o d h
+
+/-- the image found contains the address, unless the address is the found image's end address -/
+theorem get_by_address_contains_partial (i : Img) (addr : Nat) (path : List Nat) (o : Nat) (d : Img)
+    (h : i.getByAddr addr = .ok (path, o, d)) (hne : addr ≠ i.offset + o + d.len) :
+    i.offset + o ≤ addr ∧ addr < i.offset + o + d.len :=
+  getByAddr_contains_partial i addr path o d h hne
+
+/-- the current search and the "contains the address" search (`>=`) agree exactly off the end address of the found image -/
+theorem get_by_address_strict_iff (i : Img) (addr : Nat) (path : List Nat) (off : Nat) (d : Img)
+    (h : i.getByAddr addr = .ok (path, off, d)) :
+    i.getByAddrStrict addr = .ok (path, off, d) ↔ addr ≠ i.offset + off + d.len :=
+  getByAddr_strict_iff i addr path off d h
+
+/-- it refuses only addresses outside the root's (inclusive) range, and only with an SPSDK error -/
+theorem get_by_address_error (i : Img) (addr : Nat) (e : PyErr) (h : i.getByAddr addr = .error e) :
+    e = .spsdk ∧ (addr < i.offset ∨ i.offset + i.len < addr) :=
+  getByAddr_error i addr e h
+
+/-- the reachability relation of `get_image_by_absolute_address` is the one of `export_desc_at`: the bytes of the image
+    found sit at the returned offset of the root's export -/
+theorem subAt_descAt (i d : Img) (o : Nat) (h : SubAt i o d) : DescAt i o d := by
+  induction h with
+  | self i => exact .self i
+  | step i c d o hc _ ih => exact .step i c d o hc ih
+
+theorem get_by_address_export (i d : Img) (addr : Nat) (path : List Nat) (o : Nat) (b bd : Bytes)
+    (hv : i.validate = .ok ()) (ha : AlignWF i) (h : i.getByAddr addr = .ok (path, o, d))
+    (hb : i.export = .ok b) (hbd : d.export = .ok bd) : (b.drop o).take bd.length = bd :=
+  export_desc_at i d o b bd hv ha (subAt_descAt i d o (getByAddr_sound i addr path o d h).1) hb hbd
+
+/-- `update_offsets`: with at least one sub-image it succeeds, the least child offset moves into the image's own offset,
+    every sub-image keeps its absolute address, length, content, export and validation verdict, the least child offset
+    becomes 0 and the order is kept; without sub-images `min([])` raises -/
+theorem update_offsets_spec (i : Img) (hne : i.children ≠ []) :
+    ∃ m j, minOffset i.children = some m ∧ i.updateOffsets = .ok j ∧ j.offset = i.offset + m ∧
+      j.children.length = i.children.length ∧
+      (∀ (k : Nat) (c : Img), i.children[k]? = some c → ∃ c' : Img, j.children[k]? = some c' ∧ c'.offset + m = c.offset ∧
+        j.offset + c'.offset = i.offset + c.offset ∧ c'.len = c.len ∧ c'.export = c.export ∧ c'.validate = c.validate) ∧
+      minOffset j.children = some 0 := by
+  obtain ⟨m, j, h1, h2, h3, _, _, _, _, h4, h5, h6, _⟩ := updateOffsets_spec i hne
+  refine ⟨m, j, h1, h2, h3, h4, ?_, h6⟩
+  intro k c hk
+  obtain ⟨c', a1, a2, a3, a4, _, a6, a7⟩ := h5 k c hk
+  exact ⟨c', a1, a2, a3, a4, a6, a7⟩
+
+theorem update_offsets_error (i : Img) : (∃ e, i.updateOffsets = .error e) ↔ i.children = [] :=
+  updateOffsets_error i
+
+/-- `find_sub_image`: the first sub-image with that name, an error exactly when there is none -/
+theorem find_sub_image_spec (names : List String) (name : String) :
+    (∀ k, findSub names name = some k → names[k]? = some name ∧ ∀ j, j < k → names[j]? ≠ some name) ∧
+    (findSub names name = none ↔ name ∉ names) :=
+  ⟨fun k h => findSub_some names name k h, findSub_none names name⟩
+
+/-- fill patterns (incl. `rand`, which has no deterministic model): two trees that differ only in their patterns have the
+    same length, the same validation verdict, and exports of the same length -/
+theorem pattern_independence (i j : Img) (h : i.erasePat = j.erasePat) :
+    i.len = j.len ∧ i.validate = j.validate ∧
+      ∀ bi bj, i.export = .ok bi → j.export = .ok bj → bi.length = bj.length :=
+  ⟨len_pattern_indep i j h, validate_pattern_indep i j h, fun bi bj hi hj => export_length_pattern_indep i j bi bj h hi hj⟩
+
+example : exTree.children ≠ [] := by decide
+example : ∃ r, exTree.getByAddr 9 = .ok r := getByAddr_ok_of_range exTree 9 (by decide) (by decide)
+example : (Img.mk 0 0 4 (some [1]) (some .ones) []).erasePat = (Img.mk 0 0 4 (some [1]) (some .inc) []).erasePat := by
+  simp [Img.erasePat, erasePatList]
 
 end SpsdkVerif.C16
